@@ -26,10 +26,13 @@ ASSUMPTIONS = ["darr.array.readcodetxt / darr.raggedarray.readcodetxt applied to
                "mutators are issued in mode r+ only"]
 EXHAUSTIVE = None
 MUST_HIT = ['ragged-len-5', 'ragged-len-6', 'ragged-len-7', 'meta-created', 'meta-deleted', 'overwrite-recreate', 'growth:append',
-            'growth:iterappend', 'growth:generated', 'failed-append-in-history', 'array-history', 'ragged-history', 'copy', 'ops-inside-open-context']
+            'growth:iterappend', 'growth:generated', 'env:c-locale', 'failed-append-in-history', 'array-history', 'ragged-history', 'copy', 'ops-inside-open-context']
 
 
 def execute(ctx, spec):
+    if spec.get('env'):          # a case recorded from a child interpreter under another environment (replay path)
+        from vlib import envrun
+        return envrun.execute_in_env(ctx, 'checks.c08', spec)
     if spec.get('kind') == 'ragged':
         out, run = rhist.run_ragged_history(ctx, spec, ('readme',))
         out.cls('ragged-history')
@@ -74,6 +77,16 @@ def growth_specs():
                                          {'o': 'append', 'arg': {'k': 'rows', 'n': 1, 'seed': 2}}, {'o': 'meta', 'a': 'del', 'k': 'a'},
                                          {'o': 'reopen', 'm': 'r'}, {'o': 'mode', 'm': 'r+'}, {'o': 'meta', 'a': 'set', 'k': 'b'},
                                          {'o': 'copy', 'chunklen': 2}, {'o': 'meta', 'a': 'clear', 'k': 'a'}, {'o': 'meta', 'a': 'set', 'k': 'a'}]}
+    # another ragged array of another atom rank / type comes to life, then the first one is changed (anything the objects share shows
+    # in the code snippets of the README that is regenerated)
+    for atom, satom in (([], [2]), ([2], []), ([3, 2], [2]), ([], [2, 3])):
+        start = {'how': 'as', 'dt': {'t': 'float64', 'bo': '<'}, 'atom': atom, 'indextype': 'int64', 'meta': None, 'mode': 'r+', 'dtarg': True, 'gen': False,
+                 'items': [{'n': 2, 'seed': 1, 'form': 'nd'}, {'n': 1, 'seed': 2, 'form': 'nd'}]}
+        for via in ('as', 'open', 'copy'):
+            sib = {'o': 'sibling', 'dt': {'t': 'int16', 'bo': '>'}, 'atom': satom, 'indextype': 'int32', 'items': [{'n': 1, 'seed': 3, 'form': 'nd'}], 'via': via}
+            yield {'kind': 'ragged', 'growth': 'append', 'start': start,
+                   'ops': [sib, {'o': 'append', 'item': {'n': 3, 'seed': 4, 'form': 'nd'}}, {'o': 'trunc', 'i': 1, 'by': 'obj'}, sib,
+                           {'o': 'iterappend', 'items': [{'n': 0, 'seed': 5, 'form': 'nd'}], 'gen': False}]}
     start = {'how': 'create', 'dt': {'t': 'complex64', 'bo': '<'}, 'atom': [2], 'indextype': 'int64', 'meta': 'dict', 'mode': 'r+', 'dtarg': True}
     yield {'kind': 'ragged', 'growth': 'append', 'start': start,
            'ops': [{'o': 'append', 'item': {'n': i % 3, 'seed': i, 'form': 'nd'}} for i in range(8)]}
@@ -81,6 +94,13 @@ def growth_specs():
 
 def task_growth(ctx, col):
     enum_search(ctx, col, growth_specs(), lambda s: execute(ctx, s))
+    # a sample of the histories in a child interpreter whose default text encoding is ASCII: the README (which holds non-ASCII
+    # characters for most types) is written and compared there too
+    from vlib import envrun
+    from vlib.runner import hyp_collect
+    specs = list(growth_specs())[::5] + hyp_collect(hist.st_array_history(max_ops=5, extra=('meta',)), shard_seed(ctx, 80), ctx.pick(25, 300)) + \
+        [dict(s, kind='ragged') for s in hyp_collect(rhist.st_ragged_history(max_ops=4, extra=('meta',)), shard_seed(ctx, 81), ctx.pick(10, 150))]
+    envrun.run_specs(ctx, col, 'checks.c08', specs, 'c-locale')
 
 
 def task_enum(ctx, col, shard, L):
